@@ -11,9 +11,10 @@ package nsqlookupd
 // thresholds (inactive-producer timeout, tombstone lifetime) are symbolic, so the solver decides
 // the time-dependent part of every answer for all clocks and all settings at once.
 //
-// Time in the oracle: the code reads the clock somewhere inside an operation. The harness reads
-// the same monotone model clock immediately before and after each operation, so the model only
-// knows every instant up to an interval [lo,hi]. A producer MUST be listed when it qualifies for
+// Time in the oracle: the code reads the clock somewhere inside an operation. The harness notes
+// the latest reading the monotone model clock had handed out before the operation started and
+// the latest after it returned (verifrt.LastNow - no extra clock variables), so the model knows
+// every instant the operation used only up to an interval [lo,hi]. A producer MUST be listed when it qualifies for
 // every instant in the intervals, MUST NOT be listed when it is disqualified for every instant,
 // and is unconstrained in between (the intervals collapse when the solver picks equal readings,
 // so exact threshold behaviour - <= versus < - is still pinned).
@@ -189,25 +190,23 @@ type verifC14World struct {
 }
 
 func verifC14NewWorld() *verifC14World {
-	// All clock readings of a history lie in a window of 2^k ns and both thresholds range over
-	// [0, 2^(k+1)) ns: every ordering of the instants and every exact-threshold coincidence
-	// is covered (answers depend only on differences of instants compared with the thresholds),
-	// while the solver is spared 64-bit difference reasoning. Wrap-around of huge durations is
-	// outside the claim. (Thresholds are drawn from an unsigned type of the right width, so no
-	// Assume - and no solver call - is needed to range them.)
+	// Clock and thresholds: every clock reading is the previous one plus a fresh step of k bits
+	// and both thresholds range over all k+3-bit values, so every ordering of the instants,
+	// every exact-threshold coincidence and every "several steps add up to more / less than the
+	// threshold" case is covered (answers depend only on differences of instants compared with
+	// the thresholds). Wrap-around of huge durations is outside the claim. Thresholds are drawn
+	// from an unsigned type, so no Assume - and no solver call - is needed to range them.
 	var inact, life time.Duration
-	var window int64
-	if verifrt.Bound("clockWindowBits", 15, 31) == 15 {
-		window = 1 << 15
+	if verifrt.Bound("clockStepBits", 13, 29) == 13 {
+		verifrt.ClockSteps(13)
 		inact = time.Duration(verifrt.Uint16("inactiveProducerTimeout"))
 		life = time.Duration(verifrt.Uint16("tombstoneLifetime"))
 	} else {
-		window = 1 << 31
+		verifrt.ClockSteps(29)
 		inact = time.Duration(verifrt.Uint32("inactiveProducerTimeout"))
 		life = time.Duration(verifrt.Uint32("tombstoneLifetime"))
 	}
-	const origin = int64(1) << 60
-	verifrt.ClockRange(origin, origin+window)
+	verifrt.ClockRange(1<<60, 1<<61)
 	opts := &Options{
 		LogLevel:                lg.FATAL,
 		BroadcastAddress:        "lookupd",
@@ -235,7 +234,6 @@ func (w *verifC14World) connect(p int) {
 	if p == 1 {
 		addr = "10.0.0.2:5000"
 	}
-	t0 := verifC14Clock()
 	conn := &verifC14Conn{addr: addr}
 	client := NewClientV1(conn)
 	info := &PeerInfo{
@@ -247,13 +245,13 @@ func (w *verifC14World) connect(p int) {
 		HTTPPort:         4151,
 		Version:          "1.3.0",
 	}
-	info.lastUpdate = verifC14Clock()
+	now := verifC14Clock()
+	info.lastUpdate = now
 	client.peerInfo = info
 	w.l.DB.AddProducer(Registration{"client", "", ""}, &Producer{peerInfo: info})
-	t1 := verifC14Clock()
 	w.peers[p] = verifC14Peer{conn: conn, client: client, info: info}
 	w.m.conn[p] = true
-	w.m.lu[p] = verifC14Iv{t0, t1}
+	w.m.lu[p] = verifC14Iv{now, now}
 }
 
 // exec runs one protocol command of peer p through the real Exec. As in IOLoop, a fatal error
@@ -372,9 +370,9 @@ func (w *verifC14World) unregister(p, t, c int) {
 }
 
 func (w *verifC14World) ping(p int) {
-	t0 := verifC14Clock()
+	t0 := verifrt.LastNow()
 	resp, err, _ := w.exec(p, []string{"PING"})
-	t1 := verifC14Clock()
+	t1 := verifrt.LastNow()
 	verifrt.Assert(err == nil && string(resp) == "OK", "ping-answers-ok")
 	w.m.lu[p] = verifC14Iv{t0, t1}
 }
@@ -445,10 +443,10 @@ func (w *verifC14World) deleteChannel(t, c int) {
 }
 
 func (w *verifC14World) tombstone(t, node int) {
-	t0 := verifC14Clock()
+	t0 := verifrt.LastNow()
 	data, err := w.s.doTombstoneTopicProducer(nil,
 		verifC14Req("topic="+verifC14Esc(verifC14Topic(t))+"&node="+verifC14Node(node)), nil)
-	t1 := verifC14Clock()
+	t1 := verifrt.LastNow()
 	verifrt.Assert(data == nil && err == nil, "tombstone-ok")
 	m := &w.m
 	for p := 0; p < verifC14NP; p++ {
@@ -526,9 +524,9 @@ func (w *verifC14World) checkChannels(t int) {
 }
 
 func (w *verifC14World) checkLookup(t int) {
-	q0 := verifC14Clock()
+	q0 := verifrt.LastNow()
 	data, err := w.s.doLookup(nil, verifC14Req("topic="+verifC14Esc(verifC14Topic(t))), nil)
-	q1 := verifC14Clock()
+	q1 := verifrt.LastNow()
 	m := &w.m
 	if !m.tkey[t] {
 		verifrt.Assert(data == nil && verifC14ErrCode(err) == 404, "lookup-unknown-topic-is-404")
@@ -563,24 +561,32 @@ func (w *verifC14World) checkLookup(t int) {
 			verifrt.Assert(!listed, "lookup-hides-unregistered-or-disconnected")
 			continue
 		}
-		must := w.activeSurely(p, q1) && w.notTombstonedSurely(t, p, q0)
-		mustNot := w.inactiveSurely(p, q0) || w.tombstonedSurely(t, p, q1)
+		// (each predicate is evaluated first: a call on the right of && / || would fork the path)
+		act, inactive := w.activeSurely(p, q1), w.inactiveSurely(p, q0)
+		tombed, notTombed := w.tombstonedSurely(t, p, q1), w.notTombstonedSurely(t, p, q0)
+		must := act && notTombed
+		mustNot := inactive || tombed
 		if listed {
 			verifrt.Assert(!mustNot, "lookup-hides-inactive-or-tombstoned-producer")
 		} else {
 			verifrt.Assert(!must, "lookup-lists-live-registered-producer")
 		}
+		hasTomb := m.tomb[t][p]
 		verifrt.Reach("lookup-producer-listed", listed)
-		verifrt.Reach("lookup-producer-hidden-by-tombstone", !listed && w.tombstonedSurely(t, p, q1) && w.activeSurely(p, q1))
-		verifrt.Reach("lookup-producer-hidden-by-inactivity", !listed && w.inactiveSurely(p, q0) && !m.tomb[t][p])
-		verifrt.Reach("lookup-tombstone-lapsed", listed && m.tomb[t][p])
+		if !listed {
+			hiddenByTomb := tombed && act
+			hiddenByInactivity := inactive && !hasTomb
+			verifrt.Reach("lookup-producer-hidden-by-tombstone", hiddenByTomb)
+			verifrt.Reach("lookup-producer-hidden-by-inactivity", hiddenByInactivity)
+		}
+		verifrt.Reach("lookup-tombstone-lapsed", listed && hasTomb)
 	}
 }
 
 func (w *verifC14World) checkNodes() {
-	q0 := verifC14Clock()
+	q0 := verifrt.LastNow()
 	data, err := w.s.doNodes(nil, verifC14Req(""), nil)
-	q1 := verifC14Clock()
+	q1 := verifrt.LastNow()
 	verifrt.Assert(err == nil, "nodes-ok")
 	mp, _ := data.(map[string]interface{})
 	nodes, ok := mp["producers"].([]*node)
@@ -614,12 +620,12 @@ func (w *verifC14World) checkNodes() {
 				continue
 			}
 			tc[t]++
-			flag := n.Tombstones[j]
-			if flag {
-				verifrt.Assert(!w.notTombstonedSurely(t, p, q0), "nodes-tombstone-flag-only-for-tombstoned-topic")
-			} else {
-				verifrt.Assert(!w.tombstonedSurely(t, p, q1), "nodes-tombstone-flag-set-for-tombstoned-topic")
-			}
+			flag := n.Tombstones[j] // a symbolic value: no branching on it
+			notTombed, tombed := w.notTombstonedSurely(t, p, q0), w.tombstonedSurely(t, p, q1)
+			wrongSet := flag && notTombed
+			wrongClear := !flag && tombed
+			verifrt.Assert(!wrongSet, "nodes-tombstone-flag-only-for-tombstoned-topic")
+			verifrt.Assert(!wrongClear, "nodes-tombstone-flag-set-for-tombstoned-topic")
 			verifrt.Reach("nodes-tombstone-flag-set", flag)
 		}
 		for t := 0; t < verifC14NT; t++ {
